@@ -55,21 +55,24 @@ class MockApi:
     async def lookup_kind(self, kind: str):
         return (None, kind.lower(), None)
 
-    async def async_get(self, *args, **kwargs):
+    async def async_get(self, kind=None, *args, **kwargs):
         if self._current_resource:
-            # TODO: This should probably be loaded and built from the Function,
-            # using _build_resource_config
-
-            resource_class = kr8s.objects.new_class(
-                version=self._current_resource.get("apiVersion"),
-                kind=self._current_resource.get("kind"),
-                namespaced=(
-                    True
-                    if self._current_resource.get("metadata", {}).get("namespace")
-                    else False
-                ),
-                asyncio=True,
-            )
+            if isinstance(kind, type):
+                # The Function's own resource class. Building a new class here
+                # would register it with kr8s, where a later lookup of the same
+                # kind could pick it up instead of the Function's.
+                resource_class = kind
+            else:
+                resource_class = kr8s.objects.new_class(
+                    version=self._current_resource.get("apiVersion"),
+                    kind=self._current_resource.get("kind"),
+                    namespaced=(
+                        True
+                        if self._current_resource.get("metadata", {}).get("namespace")
+                        else False
+                    ),
+                    asyncio=True,
+                )
             yield resource_class(
                 api=self,
                 resource=self._current_resource,
